@@ -331,7 +331,7 @@ def generate(repo):
     b = func_body(src, 'regress_report_step_log')
     rgv = {(mi, wi): REGRESS_TEMPLATE.replace('@MISSING@', REGRESS_MISSING[mi][0]).replace('@STDECL@', REGRESS_MISSING[mi][1]).replace('@RVNEG@', w)
            for mi in (False, True) for wi, w in enumerate(REGRESS_RVNEG)}
-    regress_missing_empty = pick_variant(b, rgv, 'regress_report_step_log')[0]
+    regress_missing_empty, regress_warns = pick_variant(b, rgv, 'regress_report_step_log')
     o.append('Definition name_cvs : bytes := %s.' % coq_bytes(name_cvs))
     o.append('Definition name_dpb : bytes := %s.' % coq_bytes(name_dpb))
     o.append('Definition name_checkflist : bytes := %s.' % coq_bytes(name_checkflist))
@@ -347,6 +347,10 @@ def generate(repo):
                       ('regress_log_missing_is_empty', regress_missing_empty, 'regress_report_step_log')):
         o.append('(* %s: a log that does not exist %s *)' % (fn, 'is an empty log' if v else 'makes the report fail'))
         o.append('Definition %s : bool := %s.' % (nm, 'true' if v else 'false'))
+    # /repo f0fc0f7: the regress path says why it fails (standard error is not a model output: the switch is a pin on the
+    # source for the clause "a helper that rejects its input prints a diagnostic", observed by C12's report lane)
+    o.append('(* regress_report_step_log: an unreadable log %s *)' % ('is reported with warn()' if regress_warns else 'makes the report fail WITHOUT a diagnostic'))
+    o.append('Definition regress_unreadable_log_warns : bool := %s.' % ('true' if regress_warns else 'false'))
     # ---- cvs log table
     b = func_body(src, 'report_cvs_log')
     m = need(r'paths\[\] = \{\n(.*?)\n\t\};', b, 'report_cvs_log: table', re.S)
